@@ -159,6 +159,8 @@ def _shape(c):
 
 def run_case(job):
     case, table, variant = job[:3]
+    if isinstance(case, str):
+        case = json.loads(case)
     style, under = (job[3], job[4]) if len(job) > 3 else (0, 0)
     from ak.mtd_sql import SqlMethod
     conn = (_PctConn if style else _Conn)(_db(table))
@@ -284,8 +286,9 @@ def run(ctx):
     more = [c for c in r.printed if isinstance(c, dict)]
     if not ctx.quick:
         r = ctx.tlc('sql/SqlFilter.tla', 'SPECIFICATION Spec\nCHECK_DEADLOCK FALSE\nCONSTANTS\n  MaxConds = 2\n  Rich = FALSE\n'
-                    '  Emit = TRUE\nINVARIANT BindCountByShape\n', workers=16, timeout=7200, heap='12g')
-        more += [c for c in r.printed if isinstance(c, dict)]
+                    '  Emit = TRUE\nINVARIANT BindCountByShape\n', workers=16, timeout=7200, heap='12g', decode=False)
+        more += [c for c in r.printed if c.startswith('{')]      # JSON text, decoded where it is used (memory)
+        del r
         ctx.extra['two_condition_cases_exhaustive'] = True
     cases += more
     jobs = []
@@ -299,15 +302,18 @@ def run(ctx):
     shapes = {}
     for job, (prob, sh) in zip(jobs, res):
         c, variant = job[0], job[2]
+        if isinstance(c, str) and prob:
+            c = json.loads(c)
         if prob:
             ctx.violation({'case': {k: c[k] for k in ('conds', 'desc', 'rows', 'binds')}, 'table': table, 'variant': variant, 'style': job[3], 'under': job[4]}, prob)
         elif sh:
             key, sql = sh
             if key in shapes and shapes[key][0] != sql:
+                c = json.loads(c) if isinstance(c, str) else c
                 ctx.violation({'case': {k: c[k] for k in ('conds', 'desc', 'rows', 'binds')}, 'table': table,
                                'variant': variant, 'style': job[3], 'under': job[4], 'other_sql': shapes[key][0]},
                               'same condition shape with different values gives different SQL text: %r vs %r' % (sql, shapes[key][0]))
-            shapes.setdefault(key, (sql, c))
+            shapes.setdefault(key, (sql, None))
     bad = json.loads(json.dumps(cases[5]))
     bad['rows'] = bad['rows'] + [1]
     ctx.selftest(run_case((bad, table, 0))[0] is not None, 'replay accepted a corrupted row set')
@@ -318,6 +324,7 @@ def run(ctx):
     ctx.extra['multi_condition_cases'] = len(more)
     ctx.extra['distinct_shapes'] = len(shapes)
     for c in (cases[3], cases[n1 // 2], cases[-1]):
+        c = json.loads(c) if isinstance(c, str) else c
         ctx.sample({k: c[k] for k in ('conds', 'desc', 'rows')})
 
 
